@@ -80,20 +80,27 @@ def search_poison_counterexample(rec, seed, which="disabled"):
     for trial in range(4):
         d = inputs.make(con, rng, st)
         w = d["w"].copy()
+        c = d["c"].copy()
         mask = np.ones(len(w), dtype=bool)
         for lo, hi in con["w"]:
             mask[lo:hi] = False
-        if not mask.any():
+        cmask = np.ones(len(c), dtype=bool)
+        for lo, hi in con.get("c_used", [[0, len(c)]]):
+            cmask[lo:hi] = False
+        if not mask.any() and not cmask.any():
             return None
         A_ref = np.zeros_like(d["A"])
-        runc.call_kernel(fn, A_ref, w, d["c"], d["x"], d["e"], d["p"])
+        runc.call_kernel(fn, A_ref, w, c, d["x"], d["e"], d["p"])
         w2 = w.copy()
         w2[mask] = np.nan
+        c2 = c.copy()
+        c2[cmask] = np.nan
         A_p = np.zeros_like(d["A"])
-        runc.call_kernel(fn, A_p, w2, d["c"], d["x"], d["e"], d["p"])
+        runc.call_kernel(fn, A_p, w2, c2, d["x"], d["e"], d["p"])
         if not np.array_equal(A_ref, A_p, equal_nan=False):
-            return {"poisoned_cells": np.nonzero(mask)[0].tolist(), "A_ref": A_ref.tolist(),
-                    "A_poisoned": [str(x) for x in A_p.tolist()], "e": d["e_used"], "p": d["p_used"]}
+            return {"poisoned_w_cells": np.nonzero(mask)[0].tolist(), "poisoned_c_cells": np.nonzero(cmask)[0].tolist(),
+                    "A_ref": A_ref.tolist()[:16], "A_poisoned": [str(x) for x in A_p.tolist()[:16]],
+                    "e": d["e_used"], "p": d["p_used"]}
     return None
 
 
@@ -190,6 +197,11 @@ def run_ast_property(v, tier, seed, g, bit, tag, search, what, extra_pinned=(), 
         ok = bool(rec["bits"] and rec["bits"][bi] and (rec["qed"] or all(rec["bits"])is False))
         # Qed of the three theorems fails if any bit is false; the bit itself is what counts here
         ok = bool(rec["bits"] and rec["bits"][bi])
+        if bit == "safe_enabled" and rec["contract"].get("w_used_not_enabled"):
+            # a coefficient occurs in the integrand but is flagged disabled: an assembler would not pack it
+            v.oblige(False)
+            v.violation(f"enabled-flag:{rec['case']}", f"coefficient(s) {rec['contract']['w_used_not_enabled']} occur in the integrand of {rec['name']} but enabled_coefficients is false",
+                        {"case": rec["case"], "code": rec["code"], "kernel": rec["name"]})
         tied = rec["text_tied"] in (True, None)
         v.oblige(ok and tied)
         if ok and tied:
